@@ -4,7 +4,7 @@ package vrt
 
 import (
 	"fmt"
-	"os"
+	"syscall"
 	"runtime"
 	"unsafe"
 )
